@@ -6,6 +6,10 @@ import (
 	"strings"
 )
 
+// escapeError is what parseArraiStringFragment panics with on a malformed
+// escape sequence; Compile turns it into an ordinary error.
+type escapeError struct{ error }
+
 func parseArraiStringFragment(s string, validEscapes string, indent string) string {
 	if strings.HasPrefix(validEscapes, "`") {
 		return strings.ReplaceAll(s, "``", "`")
@@ -14,9 +18,12 @@ func parseArraiStringFragment(s string, validEscapes string, indent string) stri
 	var sb strings.Builder
 
 	number := func(i, size, base int) int {
+		if i+size > len(s) {
+			panic(escapeError{fmt.Errorf("incomplete \\-escape: %q", s[i-1:])})
+		}
 		n, err := strconv.ParseUint(s[i:i+size], base, 32)
 		if err != nil {
-			panic(err)
+			panic(escapeError{fmt.Errorf("malformed \\-escape %q: %v", s[i-1:i+size], err)})
 		}
 		sb.WriteRune(rune(n))
 		return i + size - 1
@@ -27,6 +34,9 @@ func parseArraiStringFragment(s string, validEscapes string, indent string) stri
 		switch c {
 		case '\\':
 			i++
+			if i == len(s) {
+				panic(escapeError{fmt.Errorf("incomplete \\-escape at the end of %q", s)})
+			}
 			switch s[i] {
 			case 'x':
 				i = number(i+1, 2, 16)
@@ -64,7 +74,7 @@ func parseArraiStringFragment(s string, validEscapes string, indent string) stri
 				if strings.ContainsRune(validEscapes, rune(c)) {
 					sb.WriteByte(c)
 				}
-				panic(fmt.Errorf("unrecognized \\-escape: %q", s[i]))
+				panic(escapeError{fmt.Errorf("unrecognized \\-escape: %q", s[i])})
 			}
 		default:
 			sb.WriteByte(c)
